@@ -918,6 +918,30 @@ pub fn gen_cluster(seed: u64, tier: &Tier, shard: usize, nshards: usize, emit: &
                 }
             }
         }
+        // predicate-only change: a TTL key the predicate looks at is collected while nothing else
+        // moves (the watch channel must follow although no max version changed)
+        if !two_clusters && rng.chance(1, 2) {
+            let a = rng.below(n);
+            let key = if rng.chance(1, 2) { "ready" } else { "drain" };
+            emit(format!("(setttl {a} {} {})", hex(key.as_bytes()), hex(b"t")));
+            for b in 0..n {
+                if b != a {
+                    emit(format!("(handshake {a} {b})"));
+                    emit(format!("(advance 3)"));
+                    emit(format!("(handshake {b} {a})"));
+                    emit(format!("(advance 3)"));
+                    emit(format!("(handshake {a} {b})"));
+                }
+            }
+            for b in 0..n {
+                emit(format!("(live {b})"));
+            }
+            emit(format!("(advance {})", grace + 1));
+            for b in 0..n {
+                emit(format!("(gc {b})"));
+                emit(format!("(live {b})"));
+            }
+        }
         // fair suffix: loss-free handshakes between every pair, a few rounds (C01)
         if !two_clusters {
             for _ in 0..(n + 3) {
@@ -999,5 +1023,139 @@ pub fn gen_catchup(seed: u64, tier: &Tier, shard: usize, nshards: usize, emit: &
                 }
             }
         }
+    }
+}
+
+// ------------------------------------------------------------------------------------------------
+// listener suite: subscriptions over an alphabet with 1-, 2- and 4-byte characters
+
+fn all_strings(alphabet: &[&str], max_len: usize) -> Vec<String> {
+    let mut out = vec![String::new()];
+    let mut frontier = vec![String::new()];
+    for _ in 0..max_len {
+        let mut next = Vec::new();
+        for s in &frontier {
+            for a in alphabet {
+                next.push(format!("{s}{a}"));
+            }
+        }
+        out.extend(next.iter().cloned());
+        frontier = next;
+    }
+    out
+}
+
+pub fn gen_listener(seed: u64, tier: &Tier, shard: usize, nshards: usize, emit: &mut dyn FnMut(String)) {
+    let alphabet = ["a", "b", "é", "😀"];
+    let strings = all_strings(&alphabet, 3); // 85 strings
+    let ncases = if tier.thorough { 1600 } else { 96 };
+    let me = node_id(1);
+    let other = node_id(2);
+    for i in 0..ncases {
+        if i % nshards != shard {
+            continue;
+        }
+        let mut rng = Rng::new(seed ^ ((i as u64) << 16) ^ 0x115);
+        emit(format!("(case listener-{i})"));
+        emit(new_cmd(0, &me, "c", 40, DEFAULT_FD, "(pred none)", &[]));
+        // up to 8 subscriptions, biased towards short prefixes and the empty one; duplicates allowed
+        let nsubs = rng.range(0, 8);
+        let mut subs: Vec<(u64, String)> = Vec::new();
+        for idx in 0..nsubs {
+            let p = if rng.chance(1, 6) {
+                String::new()
+            } else {
+                let max = if rng.chance(1, 2) { 21 } else { 85 };
+                strings[rng.below(max) as usize].clone()
+            };
+            emit(format!("(sub 0 {idx} {})", hex(p.as_bytes())));
+            subs.push((idx, p));
+        }
+        // some handles dropped, some made permanent
+        for (idx, p) in &subs {
+            match rng.below(5) {
+                0 => emit(format!("(unsub 0 {idx} {})", hex(p.as_bytes()))),
+                1 => emit(format!("(forever 0 {idx})")),
+                _ => {}
+            }
+        }
+        // every key of the universe is written locally with a new value
+        for (k, key) in strings.iter().enumerate() {
+            let kh = hex(key.as_bytes());
+            match (k + i) % 9 {
+                0 => emit(format!("(setttl 0 {kh} {})", hex(b"t"))),
+                _ => emit(format!("(set 0 {kh} {})", hex(format!("v{i}").as_bytes()))),
+            }
+        }
+        // same value again (no event), deletions (no event), late subscription
+        for _ in 0..6 {
+            let key = &strings[rng.below(85) as usize];
+            let kh = hex(key.as_bytes());
+            match rng.below(4) {
+                0 => emit(format!("(set 0 {kh} {})", hex(format!("v{i}").as_bytes()))),
+                1 => emit(format!("(del 0 {kh})")),
+                2 => emit(format!("(delttl 0 {kh})")),
+                _ => emit(format!("(set 0 {kh} {})", hex(b"again"))),
+            }
+        }
+        // replicated writes: a delta about another member, with stale and deleted entries
+        emit(plist("setcopy", ["0".to_string(), p_id(&other), "(ns 3 0 2 ( (kv x61 x6f6c64 2 S 0)))".to_string()]));
+        let mut kvs = Vec::new();
+        let mut v = 0;
+        for _ in 0..rng.range(1, 8) {
+            v += 1;
+            let key = &strings[rng.below(85) as usize];
+            let st = rng.below(3) as u8;
+            kvs.push(VKv { key: key.clone(), value: if st == 1 { String::new() } else { format!("r{v}") }, version: v, status: st });
+        }
+        let nd = VNodeDelta { chitchat_id: other.clone(), from_version_excluded: 0, last_gc_version: 0, key_values: kvs, max_version: v };
+        let msg = PMsg::Ack { delta: PDelta { serialized_len: 1, node_deltas: vec![nd] } };
+        emit(plist("msg", ["0".to_string(), p_msg(&msg)]));
+    }
+}
+
+// ------------------------------------------------------------------------------------------------
+// select suite: all subset structures of peer / live / dead / seed sets x scripted generators
+
+pub fn gen_select(seed: u64, tier: &Tier, shard: usize, nshards: usize, emit: &mut dyn FnMut(String)) {
+    let n: u32 = if tier.thorough { 6 } else { 4 };
+    // per address: 0 absent, 1 peer of unknown liveness, 2 live, 3 dead; x seed or not
+    let total = 8u64.pow(n);
+    let scripts = [
+        "(const 0)".to_string(),
+        format!("(const {})", u64::MAX),
+        format!("(const {})", 1u64 << 63),
+        format!("(const {})", (1u64 << 62) + 12345),
+    ];
+    emit(format!("(case select-{shard})"));
+    for code in 0..total {
+        if (code as usize) % nshards != shard {
+            continue;
+        }
+        let (mut peers, mut live, mut dead, mut seeds) = (vec![], vec![], vec![], vec![]);
+        let mut c = code;
+        for k in 1..=n as u64 {
+            let st = c % 4;
+            let sd = (c / 4) % 2;
+            c /= 8;
+            if st >= 1 {
+                peers.push(k);
+            }
+            if st == 2 {
+                live.push(k);
+            }
+            if st == 3 {
+                dead.push(k);
+            }
+            if sd == 1 {
+                seeds.push(k);
+            }
+        }
+        let l = |v: &Vec<u64>| plist("", v.iter().map(|x| x.to_string()));
+        let mut rng = Rng::new(seed ^ code);
+        for s in &scripts {
+            emit(plist("select", [l(&peers), l(&live), l(&dead), l(&seeds), s.clone()]));
+        }
+        emit(plist("select", [l(&peers), l(&live), l(&dead), l(&seeds), format!("(counter {} {})", rng.next(), rng.next() | 1)]));
     }
 }
